@@ -221,6 +221,7 @@ class ResourceAnalysis:
         self.fn = {}
         for name in ('lock', 'unlock', 'enqueue', 'select', 'lockRead', 'lockWrite', 'unlockRead', 'unlockWrite'):
             f = facts.fn(f'{CLS}::{name}')
+            if f is None and name == 'enqueue': continue          # written inline in lock(): the lock rows see its queue operations either way
             if f is None: rep.anchor_missing(f'{CLS}::{name}', 'function not found'); continue
             self.fn[name] = f
         c = facts.cls(CLS)
